@@ -321,6 +321,8 @@ package vuego
 //@   modifies caches(v)
 
 //@ func (v *Vue) evalElseIfChain(ctx, node, nodes, depth) (res, skip, err)
+//@   requires C11.depth.chain: depth <= maxEvalDepth
+//@   decreases maxEvalDepth + 10 - depth, 1
 //@   requires C03.chain.head: len(nodes) >= 1 && nodes[0] == node
 //@   requires C03.chain.vif: hasAttrUpTo(node.Attr, "v-if", len(node.Attr))
 //@   requires nonnil.nodes: forall k int :: 0 <= k && k < len(nodes) ==> nodes[k] != nil
@@ -339,6 +341,8 @@ package vuego
 //@   loop 1 use chainEndMono(nodes, idx, lastChainNodeIdx), chainEndMono(nodes, idx + 1, lastChainNodeIdx), chainEndMono(nodes, idx + 1, idx)
 
 //@ func (v *Vue) evalVFor(ctx, node, nodes, depth) (res, skip, err)
+//@   requires C11.depth.vfor: depth <= maxEvalDepth
+//@   decreases maxEvalDepth + 10 - depth, 1
 //@   requires C04.head: len(nodes) >= 1
 //@   ensures C04.balance: BALANCED(ctx)
 //@   loop 0 invariant C04.balance.loop: BALANCED(ctx)
@@ -346,6 +350,7 @@ package vuego
 //@   loop 1 invariant C04.else.scan: 1 <= j && skipCount == 0 && BALANCED(ctx)
 
 //@ func (v *Vue) evaluate(ctx, nodes, depth) (res, err)
+//@   decreases maxEvalDepth + 10 - depth, 2
 //@   ensures C04+C05.balance: BALANCED(ctx)
 //@   assert C16.marked: hasAttrUpTo(node.Attr, "v-once", len(node.Attr)) ==> ctx.seen[getAttrFrom(node.Attr, "v-once-id", 0)] at "helpers.HasAttr(node, \"v-pre\")"
 //@   loop 0 invariant C03+C04.loop.bounds: 0 <= i && i <= len(nodes)
@@ -541,6 +546,7 @@ package vuego
 //@   ensures C04.foreach.balance: len(s.stack) == old(len(s.stack)) && forall bi int :: 0 <= bi && bi < len(s.stack) ==> s.stack[bi] == old(s.stack[bi])
 
 //@ func (v *Vue) evalFor$1(index, value) (err)
+//@   decreases maxEvalDepth + 10 - depth, 4
 //@   holds ctx.stack
 //@   assert C04.instance.fresh: fresh(iterNode) && iterNode != nil at "v.evaluate(ctx, []*html.Node{iterNode}, depth)"
 //@   ensures C04.balance: BALANCED(ctx)
@@ -553,24 +559,33 @@ package vuego
 //@   loop 1 invariant C04.balance.loop: BALANCED(ctx)
 
 //@ func (v *Vue) evalFor(ctx, node, expr, depth) (res, err)
+//@   requires C11.depth.for: depth <= maxEvalDepth + 1
+//@   decreases maxEvalDepth + 10 - depth, 1
 //@   ensures C04.balance: BALANCED(ctx)
 
 //@ func (v *Vue) evaluateChildren(ctx, node, depth) (res, err)
+//@   requires C11.depth.children: depth <= maxEvalDepth + 2
+//@   decreases maxEvalDepth + 10 - depth, 3
 //@   ensures C04+C05.balance: BALANCED(ctx)
 
 //@ func (v *Vue) evaluateNodeAsElement(ctx, node, depth) (res, err)
+//@   requires C11.depth.element: depth <= maxEvalDepth
+//@   decreases maxEvalDepth + 10 - depth, 0
 //@   holds ctx.stack
 //@   ensures C04+C05.balance: BALANCED(ctx)
 //@   loop 0 invariant C04.balance.loop: BALANCED(ctx)
 //@   loop 1 invariant C04.balance.loop: BALANCED(ctx)
 
 //@ func (v *Vue) evalTemplate(ctx, nodes, componentData, depth) (res, err)
+//@   requires C11.depth.template: depth <= maxEvalDepth + 1
+//@   decreases maxEvalDepth + 10 - depth, 1
 //@   holds ctx.stack
 //@   ensures C04+C05.balance: BALANCED(ctx)
 //@   loop 0 invariant C05.balance.loop: BALANCED(ctx)
 //@   loop 5 invariant C05.balance.loop: BALANCED(ctx)
 
 //@ func (v *Vue) evalInclude(ctx, node, vars, depth) (res, err)
+//@   decreases maxEvalDepth + 10 - depth, 0
 //@   holds ctx.stack
 //@   assert C05.frontmatter.own.scope: len(ctx.stack.stack) == old(len(ctx.stack.stack)) + 1 && (vars != nil ==> ctx.stack.stack[len(ctx.stack.stack) - 1] == vars) at "ctx.stack.Set(k, v)"
 //@   assert C05.component.scope: len(ctx.stack.stack) == old(len(ctx.stack.stack)) + 1 at "v.evalTemplate(ctx, compDom, ctx.stack.EnvMap(), depth+1)"
@@ -578,12 +593,14 @@ package vuego
 //@   loop 0 invariant C05.balance.loop: len(ctx.stack.stack) == old(len(ctx.stack.stack)) + 1 && (forall bi int :: 0 <= bi && bi < old(len(ctx.stack.stack)) ==> ctx.stack.stack[bi] == old(ctx.stack.stack[bi])) && (vars != nil ==> ctx.stack.stack[len(ctx.stack.stack) - 1] == vars)
 //@   loop 1 invariant C05.balance.loop: len(ctx.stack.stack) == old(len(ctx.stack.stack)) + 1 && (forall bi int :: 0 <= bi && bi < old(len(ctx.stack.stack)) ==> ctx.stack.stack[bi] == old(ctx.stack.stack[bi])) && (vars != nil ==> ctx.stack.stack[len(ctx.stack.stack) - 1] == vars)
 
-//@ func (v *Vue) evalSlot(ctx, node, slotScope) (res, err)
+//@ func (v *Vue) evalSlot(ctx, node, slotScope, depth) (res, err)
+//@   requires C11.depth.slot: depth <= maxEvalDepth
+//@   decreases maxEvalDepth + 10 - depth, 1
 //@   requires nilable.slotScope: true
 //@   holds ctx.stack
-//@   assert C06.supplied.fields: slotContent.Props == old(slotContent.Props) && slotContent.TemplateNode == old(slotContent.TemplateNode) at "v.evaluateChildren(ctx, slotContent.TemplateNode, 0)"
+//@   assert C06.supplied.fields: slotContent.Props == old(slotContent.Props) && slotContent.TemplateNode == old(slotContent.TemplateNode) at "v.evaluateChildren(ctx, slotContent.TemplateNode, depth+1)"
 //@   assert C06.props.percall: fresh(slotProps) && slotProps != nil at "ctx.stack.Set(scopedVarName, slotProps)"
-//@   assert C06.props.scope: len(ctx.stack.stack) == old(len(ctx.stack.stack)) + 1 && fresh(slotProps) at "v.evaluateChildren(ctx, slotContent.TemplateNode, 0)"
+//@   assert C06.props.scope: len(ctx.stack.stack) == old(len(ctx.stack.stack)) + 1 && fresh(slotProps) at "v.evaluateChildren(ctx, slotContent.TemplateNode, depth+1)"
 //@   ensures C06.balance: BALANCED(ctx)
 //@   loop 2 invariant C06.balance.loop: len(ctx.stack.stack) == old(len(ctx.stack.stack)) + 1 && (forall bi int :: 0 <= bi && bi < old(len(ctx.stack.stack)) ==> ctx.stack.stack[bi] == old(ctx.stack.stack[bi]))
 
